@@ -149,3 +149,29 @@ fn u18_4_write_chunk_framing() {
     assert!(&out[8..13] == b"ab\0c\0" && out[13] == 0xAA, "names in order, each NUL terminated");
     core::mem::forget(w_);
 }
+
+// write -> parse -> write stability of the optional MWMO chunk: the version the reader detects for a parsed file must be one
+// for which the writer emits the chunks that were parsed (terrain map with MWMO => a pre-Cataclysm version, whatever the
+// other MPHD flag bits say; WMO-only maps always keep it). MAID absent.
+// @harness unit=U18.5 props=C18 kind=complete timeout=600 target="lib.rs: WdtReader::detect_version vs VersionConfig::should_have_chunk (all MPHD flag words, MWMO / MODF presence, every version hint)" oracle=wdt_roundtrip
+#[kani::proof]
+#[kani::unwind(8)]
+#[kani::stub(alloc::fmt::format, stub_format)]
+fn u18_5_detected_version_keeps_parsed_mwmo() {
+    // MAIN stays empty: only the presence of the optional chunks and the MPHD flag word enter detect_version
+    let mut wdt = WdtFile { mver: chunks::MverChunk::new(), mphd: chunks::MphdChunk::new(), main: chunks::MainChunk { entries: Vec::new() },
+                            maid: None, mwmo: None, modf: None, version_config: version::VersionConfig::new(WowVersion::Classic) };
+    wdt.mphd.flags = chunks::MphdFlags::from_bits_retain(kani::any::<u32>());
+    let has_mwmo: bool = kani::any();
+    if has_mwmo { wdt.mwmo = Some(chunks::MwmoChunk { filenames: Vec::new() }); }
+    if kani::any() { wdt.modf = Some(chunks::ModfChunk { entries: Vec::new() }); }
+    let hint = match kani::any::<u8>() % 5 { 0 => WowVersion::Classic, 1 => WowVersion::TBC, 2 => WowVersion::WotLK, 3 => WowVersion::Cataclysm, _ => WowVersion::MoP };
+    let empty: [u8; 0] = [];
+    let r = WdtReader::new(std::io::Cursor::new(&empty[..]), hint);
+    let v = r.detect_version(&wdt);
+    let cfg = version::VersionConfig::new(v);
+    if has_mwmo {
+        assert!(cfg.should_have_chunk("MWMO", wdt.is_wmo_only()), "a parsed MWMO chunk is written again under the detected version");
+    }
+    core::mem::forget(wdt);
+}
